@@ -47,7 +47,7 @@ def load_unit(pid):
 
 
 def splice_module_line(rel):
-    return f'\n#[cfg(kani)]\n#[path = "{VERIF}/harness/{rel}"]\nmod verif_kani;\n'
+    return f'\n#[cfg(kani)]\n#[path = "{VERIF}/harness/{rel}"]\npub(crate) mod verif_kani;\n'
 
 
 def prepare_scratch(scratch, modules, contracts, use_models, for_playback=False):
@@ -195,6 +195,8 @@ def parse_kani(out):
     m = re.search(r"Verification Time: ([0-9.]+)s", out)
     res["solver_s"] = float(m.group(1)) if m else None
     res["stubs"] = sorted(set(re.findall(r"^\s*- Stub: (.*)$", out, re.M)))
+    m = re.search(r"VERIF-RSS-KB (\d+)", out)
+    res["rss_mb"] = int(m.group(1)) // 1024 if m else None
     return res
 
 
@@ -206,7 +208,12 @@ def classify(h, rc, out, wall, timed_out):
               and ".cover." in c["name"]]
     props = [c for c in checks if c not in covers]
     failures = [c for c in props if c["status"] == "FAILURE"]
-    infra_fail = [c for c in failures if any(k in c["description"] for k in INFRA_DESCR)]
+    def harness_bug(c):
+        # arithmetic overflow / index out of bounds raised by the harness text itself (not by an
+        # obligation it asserts) is a defect of the harness: undecided, never a violation
+        return ("verif/harness/" in c["location"] and
+                re.match(r"(attempt to .* with overflow|index out of bounds|attempt to divide)", c["description"]) is not None)
+    infra_fail = [c for c in failures if any(k in c["description"] for k in INFRA_DESCR) or harness_bug(c)]
     real_fail = [c for c in failures if c not in infra_fail]
     undet = [c for c in props if c["status"] == "UNDETERMINED"]
     r = {
@@ -216,7 +223,7 @@ def classify(h, rc, out, wall, timed_out):
         "unreachable": sum(1 for c in props if c["status"] == "UNREACHABLE"),
         "undetermined": len(undet), "covers": len(covers),
         "covers_satisfied": sum(1 for c in covers if c["status"] == "SATISFIED"),
-        "stubs": p["stubs"], "failed_checks": real_fail[:20],
+        "stubs": p["stubs"], "failed_checks": real_fail[:20], "rss_mb": p["rss_mb"],
     }
     if timed_out:
         r.update(verdict="undecided", reason=f"timeout after {h.get('timeout_s')} s")
@@ -248,7 +255,7 @@ def classify(h, rc, out, wall, timed_out):
 
 
 def kani_cmd(h, extra=()):
-    cmd = ["cargo", "kani"] + KANI_FLAGS + ["--harness", h["name"], "--exact"]
+    cmd = ["/usr/bin/time", "-f", "VERIF-RSS-KB %M", "cargo", "kani"] + KANI_FLAGS + ["--harness", h["name"], "--exact"]
     if h.get("solver"):
         cmd += ["--solver", h["solver"]]
     cmd += list(extra)
@@ -496,7 +503,7 @@ def main():
             def go(h):
                 r, o = run_harness(scratch, h, logdir)
                 log(f"[{pid}]   {r['verdict']:9s} {h['kind']:8s} {h['name'].split('::')[-1]}  "
-                    f"checks={r['checks']} covers={r['covers_satisfied']}/{r['covers']} {r['wall_s']}s  {r['reason'][:150]}")
+                    f"checks={r['checks']} covers={r['covers_satisfied']}/{r['covers']} {r['wall_s']}s rss={r['rss_mb']}MB  {r['reason'][:150]}")
                 return h, r, o
 
             with cf.ThreadPoolExecutor(max_workers=max(1, a.jobs)) as ex:
@@ -573,6 +580,12 @@ def main():
                                known_seen, time.time() - t0)
             except Exception as e:
                 log(f"[{pid}] could not write evidence: {e}")
+        try:  # keep the per-harness logs of the last run (gitignored) for diagnosis
+            if os.path.isdir(logdir):
+                shutil.rmtree(f"{VERIF}/logs/{pid}", ignore_errors=True)
+                shutil.copytree(logdir, f"{VERIF}/logs/{pid}")
+        except Exception:
+            pass
         if not a.keep:
             shutil.rmtree(scratch, ignore_errors=True)
         else:
@@ -597,7 +610,7 @@ def write_evidence(pid, tier, seed, unit, results, vresults, status, splice_chan
                         "functions": h.get("functions", []), "clause": h.get("clause", ""),
                         "status": r["verdict"], "reason": r["reason"], "cbmc_checks": r["checks"],
                         "covers": f"{r['covers_satisfied']}/{r['covers']}", "wall_s": r["wall_s"],
-                        "solver_s": r["solver_s"], "back_end": "Kani 0.68 / CBMC 6.11 / " + (h.get("solver") or "cadical")})
+                        "solver_s": r["solver_s"], "peak_rss_mb": r.get("rss_mb"), "back_end": "Kani 0.68 / CBMC 6.11 / " + (h.get("solver") or "cadical")})
     for v, r in vresults:
         samples.append({"obligation": v["file"], "strength": "verus-lemma", "clause": v.get("clause", ""),
                         "status": r["verdict"], "verified_functions": r["verified"], "errors": r["errors"],
